@@ -28,7 +28,7 @@ CONFIG = {
                   "Trusted: grammar transcription in Model/NT.lean; UTF-8 byte scan = scalar-value scan for ASCII cut bytes.",
     "tables": ["ntescapes", "regexes"],
     "lean_targets": ["SophiaProofs.Props.C03", "SophiaProofs.Audit.C03"],
-    "theorems": ["unescape_quoted", "quoted_clean", "quoted_no_panic", "quoted_rs_eq", "one_line", "read_write_term",
+    "theorems": ["unescape_quoted", "quoted_clean", "quoted_no_panic", "quoted_rs_eq", "quoted_loop_inv", "one_line", "read_write_term",
                  "read_write_quad", "read_write_doc", "read_write_doc_nt", "write_injective", "writeTerm_injective",
                  "iri_regex_sub_iriref", "bnode_id_sub_label", "bcp47_sub_langtag", "bcp47_sub_lang_tag",
                  "lang_tag_guard", "lang_tag_guard_excl", "lang_tag_wider", "valid_termOk", "domain_quadOk",
@@ -38,7 +38,8 @@ CONFIG = {
     "native_ok": ["iri_regex_sub_iriref", "bnode_id_sub_label", "bcp47_sub_langtag", "bcp47_sub_lang_tag",
                   "lang_tag_guard", "lang_tag_guard_excl", "valid_termOk", "domain_quadOk", "read_write_doc_valid"],
     "trivial_re": r"^ok=0|skip=|^bad-",
-    "rule": "escape level: every escape class alone, all ordered pairs/triples of the critical characters, random "
+    "rule": "escape level: every escape class alone, all ordered pairs/triples of the critical characters, every "
+            "escapable character as last byte after 10 kinds of prefix, random "
             "concatenations of classes (each C0 control, DEL, quote, backslash, lone CR, CRLF, LF, TAB, U+0000, non-BMP, "
             "combining marks, backslash-before-quote, text that looks like an escape); datasets of 1-5 strict RDF-star "
             "quads (quoted triples to depth 2, default/IRI/blank graph names, duplicates kept) over per-round alphabets: "
